@@ -345,6 +345,16 @@ func (c *SpecCtx) quant(n *EQuant) (Val, types.Type) {
 		for _, set := range n.Trig {
 			var ts []string
 			for _, te := range set {
+				// has(m, k) as a trigger term: the membership select itself (the value of has() is a conjunction)
+				if hc, ok := te.(*ECall); ok && hc.Fun == "has" && len(hc.Args) == 2 {
+					mv, mt := cc.eval(hc.Args[0])
+					kv, _ := cc.eval(hc.Args[1])
+					if mtt, ok := mt.Underlying().(*types.Map); ok {
+						dom, _, _, _, _ := x.mapHeaps(cc.cur, mtt)
+						ts = append(ts, sx("select", sx("select", dom, mv.(Sc).T), kv.(Sc).T))
+						continue
+					}
+				}
 				tv, _ := cc.eval(te)
 				switch v := tv.(type) {
 				case Sc:
